@@ -124,6 +124,8 @@ def handle : List Sexp → Option Sexp
       | "inline" => pure (resOut (renderInlineReal files entry kind data fuel))
       | "inline-marked" => pure (resOut (renderInline files entry kind data fuel))
       | "runtime" => pure (resOut (renderRuntime files entry kind data fuel))
+      -- the specification evaluator (an include stands for its target), where `runtime_eq_spec_partial` speaks
+      | "inplace" => pure (if noMtFiles files then resOut (renderSpec files entry kind data fuel) else .atom "na")
       | _ => none
   | [.atom "chain", .atom mode, fuel, files, .list reqs] => do
       let fuel ← fuel.toNat?
@@ -140,7 +142,26 @@ def handle : List Sexp → Option Sexp
         | "inline-marked" => some Mode.inlineM
         | "runtime" => some Mode.runtime
         | _ => none
-      pure (.list ((renderSeq m files fuel [] reqs).map resOut))
+      -- `renderSeqF`: after a failed render the loader keeps what it had loaded and prepared on the way
+      pure (.list ((renderSeqF m files fuel [] reqs).map fun x => resOut x.1))
+  | [.atom "chainc", .atom mode, fuel, files, .list reqs] => do
+      -- the same, and after every request the names of the prepared templates the loader holds (oldest first)
+      let fuel ← fuel.toNat?
+      let files ← files? files
+      let reqs ← reqs.mapM fun
+        | .list [.str entry, kind, data] => do
+            let kind ← kind? kind
+            let data ← data? data
+            pure ((entry, kind, data) : Req)
+        | _ => none
+      if !modelled files then pure (.atom "unmodelled") else
+      let m ← match mode with
+        | "inline" => some Mode.inlineU
+        | "inline-marked" => some Mode.inlineM
+        | "runtime" => some Mode.runtime
+        | _ => none
+      pure (.list ((renderSeqF m files fuel [] reqs).map fun x =>
+        .list [resOut x.1, .list (x.2.reverse.map fun e => .str e.1)]))
   | [.atom "kept", files, .str entry, kind] => do
       let files ← files? files
       let kind ← kind? kind
